@@ -23,7 +23,7 @@ LEVEL = "proof"
 TRUSTED = [
     "Coq 8.16.1 kernel (coqc), vm_compute; no native_compute, no extraction",
     "translator/translate_c01.py + rustlex.py (token-level reading of struct fields and GcManaged impls; its "
-    "(struct, field) -> role table FIELD_ROLES; pinned_ref of HeapTablesRef.v is a hand-justified table)",
+    "(struct, field) -> role table FIELD_ROLES; pinned_audit of theories/PinnedC01.v is a hand-justified table, each entry probed)",
     "hooks H1/H2 (memory.rs `verif`: dereference callback, policy, snapshot, force_collect, live_addrs; "
     "object.rs slot_check) and the harness `yv` (Rust; quarantining allocator), tools/*.py (Python)",
     "modelled, not verified: Rust Vec/HashMap/RefCell semantics; a dangling Gc during marking is a no-op in M",
@@ -31,7 +31,8 @@ TRUSTED = [
 ASSUMPTIONS = [
     "rooting discipline of ~60 native/_impl code sites (Gc values held in Rust locals across an allocation) is "
     "observed (quarantine + collect-at-every-allocation over the probes), not proved",
-    "pinned_ref: every ObjString / core class / chunk / module is kept by a permanent root while Vm::reset is not called",
+    "pinned_audit (PinnedC01.v): every ObjString is rooted by the intern table, core classes by Vm.class_store / string_class, for the Vm's lifetime "
+    "(no removal path in vm.rs, Vm::reset included); Chunk.constant_map keys duplicate Chunk.constants",
     "the quarantine turns a use of reclaimed memory into a deterministic event (freed memory is poisoned, never reused)",
     "snapshot correspondence observes mark/blacken CLOSURES per box (not direct edges): divergence behaviour of "
     "the real colour loop is compared only as terminate / not terminate",
@@ -85,10 +86,12 @@ def evict():
     return "{ var %s = 0; while %s < 9 { var r%s = (7000 + %s)..(7100 + %s); %s += 1; } }" % (e, e, e, e, e, e)
 
 
-def window(body="", pre=""):
+def window(body="", pre=None):
     """the probed object is alive ONLY through the probed role between the two @@C marks; @@PREMISE makes the
-    harness verify that claim on a heap snapshot (hook H2) for the object tagged with T(..)"""
-    return 'print("@@C"); %s print("@@PREMISE"); %s %s print("@@C");' % (pre, body, garb())
+    harness verify that claim on a heap snapshot (hook H2) for the object tagged with T(..).
+    Secondary owners are removed first: the range cache is flushed in EVERY window (a range payload, or a range
+    inside the payload, must not survive because the cache still roots it)."""
+    return 'print("@@C"); %s print("@@PREMISE"); %s %s print("@@C");' % (evict() if pre is None else pre, body, garb())
 
 
 # shapes of the probed object X: (name, constructor expression, expression printing it given variable x)
@@ -98,11 +101,61 @@ SHAPES = [
     ("vec", '[1, "two", [3]]', "{x}"),
     ("tuple", '(1, "two", (3, 4))', "{x}"),
     ("inst", 'P.new([7, 8])', "{x}.v"),
+    # a range held as a VALUE (Value::ObjRange arm of Value::mark): only meaningful once the range cache is flushed
+    ("range", '(3)..(9)', "{x}"),
 ]
-# T(x) tags x as the probed object of the program (see ext_c01.rs)
-PRELUDE = ("#[constructor(new)] class P { #[constructor] fn new(self, v) { self.v = v; } fn get(self) { return self.v; } }\n"
-           'fn T(x) { print(("@@TAG", x)); return x; }\n')
+# The helper class P and the tagging function T(x) (see ext_c01.rs) live in a LIBRARY module: since 342604d a closure
+# traces its module, so a class defined in the probing module would tie every instance into one cycle with that module's
+# globals (instance -> class -> method closure -> module -> global holding the container -> instance), and the holder test,
+# which sees mark closures and not edges, could no longer tell who holds whom.  Nothing in `c01lib` points back.
+LIB = ("#[constructor(new)] class P { #[constructor] fn new(self, v) { self.v = v; } fn get(self) { return self.v; } }\n"
+       'fn T(x) { print(("@@TAG", x)); return x; }\n')
+PRELUDE = 'import "c01lib" as L_; var P = L_.P; var T = L_.T;\n'
+WRAP = 'fn run_() { import "probe_"; } run_();'
 DRAIN = "var n_ = c.next(); var k_ = 0; while !n_.derives(StopIter) && k_ < 50 { print(n_); n_ = c.next(); k_ += 1; } print(k_);"
+
+
+LATELOAD = ('var consts = ["s-one", 2.5, (1, 2)]; fn outer(a) { fn inner(b) { return |c| [a, b, c, "k${a}"]; } return inner; } '
+            '#[constructor(new)] class LC { fn m(self) { return "m${1 + 1}"; } #[static] fn s() { return (|x| x)([1]); } } var made = outer([1])((2, 3))(LC.new());')
+COMPILER_SITES = ["compiler.rs:allocate_function", "compiler.rs:function", "compiler.rs:identifier_constant", "compiler.rs:initialiser",
+                  "compiler.rs:interpolation", "compiler.rs:lambda", "compiler.rs:new", "compiler.rs:string", "vm.rs:add_chunk"]
+# (name, allocation sites exercised, program fragment); mkv/mkt/mkm/mks/mki build fresh unnamed operands
+MID_OPS = [
+    ("vec slice of a temporary vec", ["vm.rs:vec_get_item"], "print(mkv()[1..3]); print(deep(mkv()[2..4][0])); print([[1], (2, [3]), [4]][0..2]);"),
+    ("vec index of a temporary vec", ["vm.rs:vec_get_item"], "print(mkv()[1]); print(deep(mkv()[2]));"),
+    ("tuple slice / index of a temporary tuple", ["vm.rs:tuple_get_item"], "print(mkt()[0..2]); print(deep(mkt()[1..3][1])); print(mkt()[1]);"),
+    ("string slice / index of a temporary string", ["vm.rs:string_get_item"], "print(mks()[1..4]); print(mks()[2]); print((mks() + mks())[3..9]);"),
+    ("string + with temporary operands", ["vm.rs:add_impl"], 'print(mks() + ("x" + "y")); print((mks() + "-") + (mks() + "!"));'),
+    ("interpolation of temporaries", ["vm.rs:format_string_impl", "vm.rs:build_string_impl"], 'print("v=${mkv()} t=${mkt()} i=${mki().v} s=${mks() + "z"} m=${mkm().len()}");'),
+    ("tuple literal of temporaries", ["vm.rs:build_tuple_impl"], "print((mkv(), mkt(), [9], (mki().v, 1)));"),
+    ("vec literal of temporaries", ["vm.rs:build_vec_impl"], "print([mkv(), mkt(), (1, [2]), mki().v]);"),
+    ("map literal of temporaries", ["vm.rs:build_hash_map"], 'print({"a": mkv(), (1, 2): mkt(), "c": {"d": mki().v}}.get((1, 2))); print({(mkt()[0][0], (7, 8)): mkv()}.values());'),
+    ("range literal while temporaries are on the operand stack", ["vm.rs:build_range"], "print([mkv(), (1 + 1)..(2 + 5), mkt()]); print(mkv()[(0 + 1)..(1 + 2)]);"),
+    ("construction with temporary arguments", ["vm.rs:construct_impl"], "print(deep(P.new(mkv()))); print(P.new((mkt(), P.new([1]))).v);"),
+    ("closure creation capturing temporaries", ["vm.rs:closure_impl", "vm.rs:capture_upvalue"], "print((|| { var a = mkv(); var b = mkt(); return || [a, b]; })()()); print((|a, b| || (a, b))(mkv(), mki().v)());"),
+    ("class declaration while temporaries are live", ["vm.rs:declare_class_impl"],
+     "fn k(a) { #[constructor(new)] class C { fn m(self) { return a; } #[static] fn s() { return [a]; } } return C; } print(k(mkv()).new().m()); print(k(mkt()).s());"),
+    ("method binding on a temporary receiver", ["vm.rs:bind_method"], "print((mki().get)()); print((mkv().len)()); var b = P.new(mkv()).get; print(b());"),
+    ("native error with temporary operands", ["vm.rs:call_native", "vm.rs:try_handle_error"],
+     'try { mkv()[99]; } catch e { print(e.derives(IndexError)); } try { mks().find(mkv()); } catch e { print(e.derives(Error)); } try { mkm().get(mkv()); } catch e { print(e.derives(Error)); }'),
+    ("throwing a temporary that is not an Error", ["vm.rs:new_error_from_value", "vm.rs:try_handle_error"], "try { throw mkv(); } catch e { print(e.derives(TypeError)); } try { throw Error.new(mkt()); } catch e { print(e.context); }"),
+    ("import at run time (module object, module closure, compilation) while temporaries are live", ["vm.rs:module", "vm.rs:start_import_impl"] + COMPILER_SITES,
+     'fn late(a, b) { import "lateload"; return [a, lateload.made, b, lateload.consts, lateload.LC.s()]; } print(late(mkv(), mkt()));'),
+    ("String.from* on temporaries", ["core.rs:string_from", "core.rs:string_from_ascii", "core.rs:string_from_utf8", "core.rs:string_from_code_points"],
+     "print(String.from(mkv()) + String.from(mkt())); print(String.from_utf8([104, 105]) + String.from_code_points([33, 8364])); print(String.from_ascii([72, 73]));"),
+    ("string natives on a temporary string", ["core.rs:string_replace", "core.rs:string_split", "core.rs:string_to_bytes", "core.rs:string_to_code_points"],
+     'print((mks() + "XaX").replace("X" + "", "-" + "-")); print((mks() + ",p," + mks()).split("," + "")); print((mks() + "€").to_bytes()); print(("€" + mks()).to_code_points());'),
+    ("string iterator of a temporary string", ["core.rs:string_iter", "core.rs:string_iter_next"], 'print(mks().iter().next()); var n = 0; for ch in mks() + "€z" { n += 1; } print(n); var e = ("" + "").iter(); print(e.next().derives(StopIter));'),
+    ("vec iterator of a temporary vec", ["core.rs:vec_iter", "core.rs:vec_iter_next"], "print(mkv().iter().next()); for e in mkv() { print(deep(e)); } print([].iter().next().derives(StopIter));"),
+    ("tuple iterator of a temporary tuple", ["core.rs:tuple_iter", "core.rs:tuple_iter_next"], "print(mkt().iter().next()); for e in mkt() { print(deep(e)); } var it = (1, 2)[0..0].iter(); print(it.next().derives(StopIter));"),
+    ("range iterator of a temporary range", ["core.rs:range_iter", "core.rs:range_iter_next"], "print(((1 + 1)..(2 + 3)).iter().next()); for i in (5 - 2)..(5 + 1) { print([i]); } print((1..1).iter().next().derives(StopIter));"),
+    ("keys / values / items of a temporary map", ["core.rs:hash_map_keys", "core.rs:hash_map_values", "core.rs:hash_map_items"],
+     "print(mkm().keys().len()); print(mkm().values().len()); for kv in mkm().items() { print(deep(kv[1])); } print({(1, 2): mkv()}.items());"),
+    ("Fiber.new on a temporary closure, results and arguments are temporaries", ["core.rs:fiber_init"],
+     "print(Fiber.new(|| mkv()).call()); var f = Fiber.new(|a| { var b = Fiber.yield([a, mkt()]); return (a, b); }); print(f.call(mkv())); print(f.call(mki().v));"),
+    ("map / filter / reduce / collect over temporaries (core.yl)", ["vm.rs:construct_impl", "vm.rs:bind_method"],
+     "print(mkv().iter().map(|e| [e, e]).collect()); print(mkv().iter().filter(|e| !e.derives(P)).collect()); print(mkt().iter().reduce(|a, e| [a, e], []));"),
+]
 
 
 def probes():
@@ -111,13 +164,20 @@ def probes():
     (premise of the probe, verified by the harness); None = the program tags nothing (premise not checkable)"""
     out = []
 
-    def add(tag, role, shape, src, known=None, mods=None, regrey=False, holders=None, why_no_premise=None, max_holders=1):
-        out.append({"tag": tag, "role": role, "shape": shape, "src": PRELUDE + src, "mods": mods or {},
+    def add(tag, role, shape, src, known=None, mods=None, regrey=False, holders=None, why_no_premise=None, max_holders=1,
+            holder_chain=None, pinned=False, seq=None, need_unrooted_holder=None):
+        # the body runs inside a function: its variables are locals (fiber stack), not module attributes, so the module
+        # (which every closure and class of the program reaches) does not become a holder of everything
+        body = src if seq else "fn body_() { %s } body_();" % src
+        out.append({"tag": tag, "role": role, "shape": shape, "src": PRELUDE + body, "mods": mods or {},
                     "known": known, "regrey": regrey, "holders": holders, "why_no_premise": why_no_premise,
-                    "max_holders": max_holders})
+                    "max_holders": max_holders, "holder_chain": holder_chain, "pinned": pinned, "seq": seq,
+                    "need_unrooted_holder": need_unrooted_holder})
 
     UP = ["ObjUpvalue"]
     FB = ["ObjFiber"]
+    # an object held by a module attribute: the module and the closures/classes defined in it form a cycle (closure -> module)
+    MODH = {"holders": ["ObjModule", "ObjClosure", "ObjClass", "ObjUpvalue"], "max_holders": 12}
     # an OPEN upvalue traces the fiber owning its slot (8e4673f) and the fiber lists its open upvalues: a cycle
     # fiber <-> upvalue (<- closure); the closure-based holder test names every member of it
     OPEN = {"holders": ["ObjFiber", "ObjUpvalue", "ObjClosure"], "max_holders": 4}
@@ -148,7 +208,7 @@ def probes():
         add("method", "inherited method copied into the subclass", sname,
             "fn mk() { var x = %s; class A { fn m(self) { return x; } } #[derive(A), constructor(new)] class B {} return B.new(); } var c = mk(); %s %s" % (X, window(), pr("c.m()")), holders=UP)
         add("class", "class under construction (methods defined while allocating)", sname,
-            "fn mk() { var x = %s; print(\"@@PREMISE\"); #[constructor(new)] class C { fn a(self) { return x; } fn b(self) { return [x]; } #[static] fn s() { return (x, 1); } fn c(self) { return self.a(); } } return C; } %s var k = mk(); print(\"@@C\"); %s %s" % (X, 'print("@@C");', pr("k.new().c()"), pr("k.s()[0]")),
+            ("fn mk() { var x = %s; " + evict() + " print(\"@@PREMISE\"); #[constructor(new)] class C { fn a(self) { return x; } fn b(self) { return [x]; } #[static] fn s() { return (x, 1); } fn c(self) { return self.a(); } } return C; } %s var k = mk(); print(\"@@C\"); %s %s") % (X, 'print("@@C");', pr("k.new().c()"), pr("k.s()[0]")),
             holders=UP + FB)
         # bound methods: the probed object is the RECEIVER
         add("receiver", "bound closure method -> receiver", sname,
@@ -166,9 +226,53 @@ def probes():
             "fn mk() { return T([%s, 0]).iter().map(|e| [e]).filter(|e| true); } var c = mk(); %s %s" % (mk, window(), pr("c.next()[0]")), holders=["ObjVecIter"])
         # modules
         add("module", "module attribute", sname, 'import "m1"; %s %s' % (window(), pr("m1.data")),
-            mods={"m1": PRELUDE + "var data = %s;" % X}, holders=["ObjModule"])
+            mods={"m1": PRELUDE + "var data = %s;" % X}, **MODH)
         add("module", "closure of an imported module -> its globals", sname, 'fn get() { import "m1"; return m1.f; } var c = get(); %s %s' % (window(), pr("c()")),
-            mods={"m1": PRELUDE + "var hidden = %s; fn f() { return hidden; }" % X}, holders=["ObjModule"])
+            mods={"m1": PRELUDE + "var hidden = %s; fn f() { return hidden; }" % X}, **MODH)
+        # a module that is no longer in Vm.modules, held ONLY by a closure that escaped from it (342604d).
+        # Premise: the payload has no root and is held by the module and the closures of its own cycle only; the module
+        # itself has NO root (it left the registry) and is held by closures only.
+        MC = {"holders": ["ObjModule", "ObjClosure"], "max_holders": 3, "holder_chain": {"ObjModule": ["ObjClosure"]}}
+        add("module", "module whose load failed (closure escapes in the thrown error), reloaded: held only by the escaped closure", sname,
+            'var keep = nil; try { import "m" as m; } catch e { keep = e.context; } try { import "m" as m2; } catch e2 { print("second load failed too"); } '
+            '%s %s' % (window(), pr("keep()")),
+            mods={"m": PRELUDE + "var secret = %s; fn get() { return secret; } throw Error.new(get);" % X},
+            # (a range payload is the SAME object in both loads - the second load gets it from the range cache - so the rooted
+            #  second module holds it too: no premise for that shape)
+            **(MC if sname != "range" else {"why_no_premise": "both loads of the module share the cached range object"}))
+        add("module", "module dropped from the registry (reload after a failed first import), held only by an escaped closure", sname,
+            'import "reg" as reg; try { import "m" as m; } catch e { print("first load failed"); } import "m" as m2; %s '
+            'print(reg.list.len()); %s %s' % (window(), pr("reg.list[0]()"), pr("reg.list[1]()")),
+            mods={"reg": "var list = [];",
+                  "m": PRELUDE + 'import "reg" as reg; var secret = %s; fn get() { return secret; } reg.list.push(get); '
+                                 'if reg.list.len() == 1 { throw "first load fails"; }' % X},
+            # here the dropped module imports the registry module that holds the closure: one cycle with a rooted member,
+            # in which the closure-based holder test cannot tell who holds whom
+            why_no_premise="dropped module and the rooted registry module lie on one reference cycle (witness program of /verif/fixes/closure_module)")
+        add("module", "module dropped by Vm::reset, held only by a closure the host kept across the reset", sname,
+            'import "m1"; var keep = m1.get;', mods={"m1": PRELUDE + "var secret = %s; fn get() { return secret; }" % X},
+            seq=("reset", "keep", "%s %s" % (window(), pr("keep()"))),
+            # snippets of a c01seq probe run in "main" (the host can only re-install a global there), so the dropped module lies on
+            # one cycle with main (module -> built-in globals -> core closures -> main -> keep -> closure -> module): only the weak
+            # form of the premise is checkable: the payload has no root and SOME module that holds it has no root either
+            holders=["ObjModule", "ObjClosure", "ObjClass", "ObjUpvalue", "ObjInstance", "ObjFunction"], max_holders=400,
+            need_unrooted_holder="ObjModule")
+        # A closure that outlives a FAILED run (c01seq keep: second snippet on the same Vm).  Vm::reset_stack must close the
+        # captured variables of EVERY fiber waiting for the failing one (their stacks are cleared) - depth 1..3 of waiting
+        # fibers, variable captured at each level, plus the failing fiber itself and main's own frame.
+        for depth in (1, 2, 3):
+            for level in range(0, depth + 2):
+                # level 0 = a function frame of the main fiber, 1..depth = waiting fibers, depth+1 = the failing fiber
+                cap = 'var x = %s; fn g() { return x; } keep = g;' % X
+                inner = '%s throw "boom";' % (cap if level == depth + 1 else "")
+                code = 'var h%d = Fiber.new(|| { %s }); h%d.call();' % (depth + 1, inner, depth + 1)
+                for d in range(depth, 0, -1):
+                    code = 'var h%d = Fiber.new(|| { %s %s return 0; }); h%d.call();' % (d, cap if level == d else "", code, d)
+                code = 'var keep = nil; fn top() { %s %s } top();' % (cap if level == 0 else "", code)
+                add("upvalue", "closure outliving a FAILED run: %d waiting fiber(s), variable captured at level %d (0 = main frame, %d = failing fiber)" % (depth, level, depth + 1),
+                    sname, code, seq=("keep", "keep", "%s %s" % (window(), pr("keep()"))),
+                    holders=UP if sname not in ("inst",) else None,
+                    why_no_premise="c01seq snippets run in main: an instance payload lies on one cycle with main's globals")
         # fibers (fibers that reference each other through stack and caller form a cycle: the closure-based holder
         # test then names every fiber of the cycle, hence max_holders=3 for those)
         add("fiber", "suspended fiber's stack", sname,
@@ -240,38 +344,48 @@ def probes():
         why_no_premise="every ObjString is permanently rooted by the intern table: a string is never reachable only through its iterator")
     add("iter", "string only through the iterator of a running for loop", "string", 'fn mk() { return "a" + "bc"; } for ch in mk() { %s print(ch); }' % window(),
         why_no_premise="every ObjString is permanently rooted by the intern table: a string is never reachable only through its iterator")
-    # temporaries held by allocating natives / operators: the whole operation is the window
-    temps = [
-        ("split", 'print("a,b,c,d".split(","));'),
-        ("split into garbage-heavy pieces", 'var s = "p" + "1;" + "q2;" + "r3"; print(s.split(";"));'),
-        ("keys", 'var m = {"a": [1], "b": (2, 3), 5: 6}; var k = m.keys(); print(k.len()); print(m.get("a"));'),
-        ("values", 'var m = {"a": [1], "b": (2, 3)}; var v = m.values(); print(v.len());'),
-        ("items", 'var m = {"a": [1]}; print(m.items());'),
-        ("map/collect", "print([1, 2, 3].iter().map(|e| [e, e]).collect());"),
-        ("filter/collect", "print([[1], [2], [3]].iter().filter(|e| e[0] > 1).collect());"),
-        ("reduce", 'print([[1], [2]].iter().reduce(|a, e| [a, e], []));'),
-        ("string +", 'var a = "left-"; var b = "right"; print(a + b + "!" + a);'),
-        ("interpolation", 'var v = [1, (2, 3)]; print("v=${v} t=${(4, [5])} ${"in" + "ner"}");'),
-        ("string slice", 'var s = "abc" + "def"; print(s[1..4]); print(s[2]);'),
-        ("vec slice", 'var v = [[1], [2], [3], [4]]; print(v[1..3]);'),
-        ("tuple slice", 'var v = ([1], [2], [3]); print(v[0..2]);'),
-        ("to_bytes", 'print(("a" + "b€").to_bytes());'),
-        ("to_code_points", 'print(("a" + "b€").to_code_points());'),
-        ("from_utf8", 'print(String.from_utf8([104, 105]) + String.from_code_points([33]));'),
-        ("String.from", 'print(String.from([1, (2, 3)]) + String.from(4.5));'),
-        ("replace", 'print(("aXbX" + "c").replace("X", "--"));'),
-        ("vec literal with allocating elements", 'print([[1], (2, 3), "s" + "t", {"k": [4]}, 5..6]);'),
-        ("tuple literal with allocating elements", 'print(([1], (2, 3), "s" + "t"));'),
-        ("map literal with allocating values", 'var m = {"a": [1], "b": "x" + "y", "c": {"d": (1, 2)}}; print(m.get("c").get("d")); print(m.get("b"));'),
-        ("constructor arguments", 'var p = P.new([1, "a" + "b", (2, 3)]); print(p.get());'),
-        ("error object", 'try { var v = [1]; print(v[3]); } catch e { print(e.derives(IndexError)); }'),
-        ("thrown instance with payload", 'try { throw Error.new([1, (2, 3)]); } catch e { print(e.context); }'),
-        ("for loop over a temporary", 'for e in [[1], [2]].iter().map(|x| (x, x)) { print(e); }'),
-        ("fiber arguments and results", 'var f = Fiber.new(|a| { var b = Fiber.yield([a, 1]); return (a, b); }); print(f.call([0])); print(f.call((9, 9)));'),
-    ]
-    for name, body in temps:
-        add("temp", "temporaries of %s" % name, "native", 'print("@@C"); %s print("@@C");' % body,
-            why_no_premise="the probed objects are Rust-side temporaries of a native, not nameable from the program")
+    # the exemptions of theories/PinnedC01.v that carry weight (held, not traced, accepted because a permanent root pins the
+    # target).  Premise of these probes = the exemption's own claim: the tagged target has num_roots > 0 at the collection point.
+    # An interned string is tagged by building an equal string: interning hands back the very same ObjString.
+    add("pinned", "(KClass, RName): name of a class that is no global", "string",
+        'fn mk() { class Zq1Name {} return Zq1Name; } var c = mk(); T("Zq1" + "Name"); %s print(c);' % window(), pinned=True)
+    add("pinned", "(KClass, RName) across Vm::reset: class kept by the host", "string",
+        'fn mk() { #[constructor(new)] class Zq2Name { fn m(self) { return [1]; } } return Zq2Name; } var keep = mk(); T("Zq2" + "Name");',
+        seq=("reset", "keep", "%s print(keep); print(keep.new().m());" % window()), pinned=True)
+    add("pinned", "(KModule, RPath): path of an imported module", "string",
+        'import "mq7"; T("mq" + "7"); %s print(mq7);' % window(), mods={"mq7": "var a = 1;"}, pinned=True)
+    add("pinned", "(KModule, RPath) of a module dropped by Vm::reset and held only by an escaped closure", "string",
+        'import "mq8"; var keep = mq8.get; T("mq" + "8");', mods={"mq8": "fn get() { import \"mq8\" as me; return 1; } fn bad() { return nil + 1; }"},
+        seq=("reset", "keep", '%s try { print(keep()); } catch e { print("caught"); }' % window()), pinned=True)
+    add("pinned", "(KFunction, RModulePath): module path in the trace of an uncaught error", "string",
+        'import "mq9"; T("mq" + "9"); %s mq9.bad();' % window(), mods={"mq9": "fn bad() { return nil + 1; }"}, pinned=True)
+    add("pinned", "(KNative, RName): name of a native reached through a bound method", "string",
+        'fn mk() { return [1, 2].push; } var c = mk(); T("pu" + "sh"); %s print(c);' % window(), pinned=True)
+    add("pinned", "(KFiber, RClass): the Fiber core class", "class",
+        'fn mk() { var f = Fiber.new(|| { Fiber.yield(1); return 2; }); f.call(); return f; } var c = mk(); T(Fiber); %s print(c.has_finished()); print(c.call()); print(c.derives(Fiber));' % window(), pinned=True)
+    add("pinned", "(KString, RClass): the String class", "class",
+        'var s = "ab" + "cd"; T(String); %s print(s.len()); print(s.derives(String));' % window(), pinned=True)
+    add("pinned", "(K*Iter, RClass): iterator core classes (not nameable: Iter, their superclass, is tagged)", "class",
+        'var a = [1, 2].iter(); var b = (1, 2).iter(); var c = (3..5).iter(); var d = ("x" + "y").iter(); T(Iter); %s '
+        'print(a.derives(Iter)); print(b.next()); print(c.next()); print(d.next()); print(a.map(|e| e + 1).collect());' % window(), pinned=True)
+    add("pinned", "(KModule, RClass): the module core class", "class",
+        'import "mq6"; var m = mq6; %s print(m.derives(Error)); print(m.a);' % window(), mods={"mq6": "var a = 1;"},
+        why_no_premise="the module class is not nameable from a program")
+    add("function", "(KChunk, RConstKey) / RConstant: nested function objects and a tuple-free constant pool reached only through chunks", "function",
+        'fn mk() { fn inner() { fn deep() { return ["const-str", 12345.5]; } return deep; } return inner; } var c = mk(); %s print(c()()());' % window(),
+        why_no_premise="function objects in a constant pool are not nameable from a program")
+    # "values the interpreter itself is holding mid-operation": for every VM operation / native that allocates (sites
+    # listed by the translator: manifest gc_tables.alloc_sites) a program in which EVERY operand is a temporary - a call
+    # result or literal with fresh heap elements (vecs, tuples, instances: not strings, which are interned and rooted),
+    # referenced from nowhere else - and the result is printed deeply afterwards.
+    MK = ('fn mkv() { return [[1, "one"], (2, [22]), P.new([3]), [4, "four"]]; } fn mkt() { return ([1, "one"], (2, [22]), P.new([3])); } '
+          'fn mkm() { return {"a": [1, (2, 3)], (4, 5): P.new([6])}; } fn mks() { return "ab" + "cdef"; } fn mki() { return P.new([[7], (8, 9)]); } '
+          'fn deep(x) { if x.derives(P) { return "P(${deep(x.v)})"; } return "${x}"; } ')
+    for name, sites, body in MID_OPS:
+        add("temp", "mid-operation: %s" % name, "temporaries", MK + 'print("@@C"); %s print("@@C");' % body,
+            mods={"lateload": LATELOAD} if "lateload" in body else None,
+            why_no_premise="the probed objects are unnamed temporaries (operand stack / Rust locals of a native)")
+        out[-1]["sites"] = sites
     return out
 
 
@@ -292,7 +406,7 @@ def probe_pairs(rng, n):
     rng.shuffle(combos)
     for a, b in combos[:n]:
         sname, mk, show = SHAPES[rng.randrange(len(SHAPES))]
-        src = PRELUDE + "fn mk() { return %s; } var c = mk(); %s print(%s);" % (
+        src = PRELUDE + "fn body_() { fn mk() { return %s; } var c = mk(); %s print(%s); } body_();" % (
             a[1](b[1]("T(%s)" % mk)), window(), show.format(x=b[2]("(" + a[2]("c") + ")")))
         out.append({"tag": "pair", "role": "%s -> %s" % (a[0], b[0]), "shape": sname, "src": src, "mods": {},
                     "known": None, "regrey": a[0] == "bound" or b[0] == "bound", "holders": [b[3]], "why_no_premise": None})
@@ -385,9 +499,18 @@ def random_program(rng):
 # running
 
 def line_of(p, opts):
-    l = "c01run %s %s" % (opts, hx(p["src"]))
+    if p.get("seq"):
+        mode, name, src2 = p["seq"]
+        l = "c01seq %s %s %s %s %s" % (opts, mode, hx(name), hx(p["src"]), hx(src2))
+    else:
+        # The probe program runs as the top-level code of module "probe_", imported by a function of "main" that keeps no
+        # reference to it.  Reason: the closures of core.yl belong to module "main", every module's built-in globals reach
+        # them, and (since 342604d) a closure reaches its module: run in "main", every object would lie on one cycle with
+        # main's globals and the holder test (mark closures, not edges) could not tell who holds whom.
+        l = "c01run %s %s %s=%s" % (opts, hx(WRAP), hx("probe_"), hx(p["src"]))
     for k, v in p["mods"].items():
         l += " %s=%s" % (hx(k), hx(v))
+    l += " %s=%s" % (hx("c01lib"), hx(LIB))
     return l
 
 
@@ -421,11 +544,30 @@ def type_short(hexname):
 def premise(p, rec):
     """(verified?, reason) for a probe that tags its probed object: at every @@PREMISE point of the run the tagged
     box has num_roots = 0 and every reachable direct holder is of an expected type"""
-    if not p.get("holders"):
+    if not p.get("holders") and not p.get("pinned"):
         return None, p.get("why_no_premise") or "no tagged object"
     ps = [x for x in rec.tagged("P") if x and x[0] == "0"]
     if not ps:
         return False, "no premise record (the program did not reach its @@PREMISE point)"
+    if p.get("pinned"):
+        # probe of an exemption of the pinned table: the premise is the exemption's own claim, a permanent root
+        for x in ps:
+            if len(x) < 2 or x[1] == "gone" or int(x[1]) == 0:
+                return False, "target claimed to be pinned has no root at the collection point"
+        return True, ""
+    # one level up (H records): each direct holder of a listed type must itself be unrooted and held only by the listed types
+    for h in [x for x in rec.tagged("H") if x and x[0] == "0"]:
+        ht = type_short(h[1])
+        for want, above in (p.get("holder_chain") or {}).items():
+            if ht.startswith(want):
+                if int(h[2]) > 0:
+                    return False, "holder %s of the probed object is rooted (num_roots %s)" % (ht, h[2])
+                odd = [type_short(q) for q in h[3:] if not any(type_short(q).startswith(e) for e in above)]
+                if odd:
+                    return False, "holder %s of the probed object is also held by %s (expected only %s)" % (ht, sorted(set(odd)), above)
+    want = p.get("need_unrooted_holder")
+    if want and not any(type_short(h[1]).startswith(want) and int(h[2]) == 0 for h in rec.tagged("H") if h and h[0] == "0"):
+        return False, "no holder of type %s without a root (the holder has not left the registry)" % want
     for x in ps:
         if len(x) >= 2 and x[1] == "gone":
             # the probed object is not in the heap any more at the collection point: nothing owns it at all
@@ -472,7 +614,7 @@ def judge(ctx, p, ref, runs, fixed_state):
                   input=p["src"], modules=p["mods"], config=cfg,
                   expected={"out": ref["out"], "res": ref["res"]},
                   actual={"out": o["out"], "res": o["res"], "detail": o["detail"][:300], "uaf": o["uaf"]},
-                  known_class=known, role=p["role"], probe_tag=p["tag"])
+                  known_class=known, role=p["role"], probe_tag=p["tag"], seq=p.get("seq"))
     return True, nontriv
 
 
@@ -621,7 +763,7 @@ def py_reference(s):
 def check_snapshots(ctx, programs, tag):
     rel = ctx.harness("release")
     dbg = ctx.harness("debug")
-    lines = [("c01run gc=never,snap_end=1 %s %s=%s" % (hx(src), hx("m1"), hx(SNAP_MODS["m1"]))) for src in programs]
+    lines = [("c01run gc=never,snap_end=1 %s %s=%s %s=%s" % (hx(src), hx("m1"), hx(SNAP_MODS["m1"]), hx("c01lib"), hx(LIB))) for src in programs]
     recs = yvlib.run_harness(rel, lines, quarantine=True, case_timeout_ms=CASE_TIMEOUT_MS)
     retry_timeouts(rel, lines, recs, budget=6)
     dlines = [l.replace("gc=never,", "") for l in lines]
@@ -703,22 +845,25 @@ def table_facts():
     uncovered pairs (held, not marked, not pinned), pairs traced by the reference but no longer by `mark`,
     pairs where `blacken` re-greys"""
     pl = "(fun l => show_list show_N (flat_map (fun p => [N_of_kind (fst p); N_of_role (snd p)]) l))"
-    terms = ["%s (uncovered holds_gen marks_gen pinned_ref)" % pl,
+    terms = ["%s (uncovered holds_gen marks_gen pinned_audit)" % pl,
              "%s (table_pairs (fun k r => marks_ref k r && negb (marks_gen k r)))" % pl,
              "%s (table_pairs blackens_mark_gen)" % pl,
-             "%s (table_pairs (fun k r => (blackens_black_gen k r || blackens_mark_gen k r) && negb (marks_gen k r)))" % pl]
+             "%s (table_pairs (fun k r => (blackens_black_gen k r || blackens_mark_gen k r) && negb (marks_gen k r)))" % pl,
+             # exemptions that carry weight: held, NOT traced, accepted only because of the pinned table
+             "%s (table_pairs (fun k r => role_mem r (holds_gen k) && negb (marks_gen k r) && pinned_audit k r))" % pl]
     try:
-        vals = yvlib.coq_eval(["YV:Show", "YV:Heap", "YV:HeapTablesRef", "YV:CollectExt", "YVGen:GcTables"], terms, tag="C01tables",
+        vals = yvlib.coq_eval(["YV:Show", "YV:Heap", "YV:HeapTablesRef", "YV:CollectExt", "YV:PinnedC01", "YVGen:GcTables"], terms, tag="C01tables",
                               preamble="Open Scope string_scope.\nOpen Scope bool_scope.")
     except Exception:
-        vals = [None] * 4
+        vals = [None] * 5
 
     def dec(v):
         if v is None:
             return None
         ns = [int(x) for x in re.findall(r"\d+", v)]
         return [(KINDS[ns[i]], ROLES[ns[i + 1]]) for i in range(0, len(ns) - 1, 2)]
-    return {"uncovered": dec(vals[0]), "dropped_from_mark": dec(vals[1]), "regrey": dec(vals[2]), "blacken_only": dec(vals[3])}
+    return {"uncovered": dec(vals[0]), "dropped_from_mark": dec(vals[1]), "regrey": dec(vals[2]), "blacken_only": dec(vals[3]),
+            "exempt_untraced_pinned": dec(vals[4])}
 
 
 def tree_state(man):
@@ -764,7 +909,8 @@ def expected_open_pairs(st):
 def replay(ctx):
     r = ctx.replay_only
     p = {"tag": r.get("probe_tag", "replay"), "role": r.get("role", "?"), "shape": "replay", "src": r["input"],
-         "mods": r.get("modules") or {}, "known": r.get("known_class"), "regrey": False}
+         "mods": r.get("modules") or {}, "known": r.get("known_class"), "regrey": False, "holders": None,
+         "seq": tuple(r["seq"]) if r.get("seq") else None}
     if r.get("probe_tag") == "snapshot":
         check_snapshots(ctx, [r["input"]], "replay")
     else:
